@@ -112,8 +112,10 @@ H_CancelSellOrder(s, m) ==
 
 \* ------------------------------------------------------------------ BuyDirect
 \* A rate string the purchase path can use: "" means 0; any other string is
-\* parsed with the POSITIVE-decimal parser, so a stored "0"/"0.0" is an error.
-RateUsable(r) == r.kind # "zero"
+\* parsed with the non-negative decimal parser ("0" / "0.0" are rates of zero).
+\* (Before the repair recorded in known_findings.txt the positive-decimal parser
+\* was used and a stored zero made every purchase fail.)
+RateUsable(r) == r.kind \in {"empty", "zero", "pos"}
 RNum(r) == IF r.kind = "pos" THEN r.num ELSE 0
 RDen(r) == IF r.kind = "pos" THEN r.den ELSE 1
 
@@ -132,8 +134,9 @@ Cost(s, qty, ask) ==
        totalT     |-> (N * (bd + bn)) \div (D * bd),                  \* trunc(subtotal + buyerFee)
        feePos     |-> N * (bn * sd + sn * bd) > 0,                    \* buyerFee + sellerFee > 0
        feeT       |-> (N * (bn * sd + sn * bd)) \div (D * bd * sd),   \* trunc(buyerFee + sellerFee)
-       sellerNeg  |-> sn > sd,                                        \* subtotal - sellerFee < 0
-       sellerT    |-> IF sn > sd THEN 0 ELSE (N * (sd - sn)) \div (D * sd) ]
+       \* trunc(subtotal - sellerFee), truncation toward zero; negative when sigma > 1
+       sellerT    |-> IF sn > sd THEN -((N * (sn - sd)) \div (D * sd))
+                      ELSE (N * (sd - sn)) \div (D * sd) ]
 
 \* o: [id, qty, bid_denom, bid_amt, dar, maxfee (optional coin)]
 BuyOne(s, buyer, o) ==
@@ -163,7 +166,7 @@ BuyOne(s, buyer, o) ==
      \/ BalOf(s, so.seller, so.bk).e < o.qty
      \/ (retire /\ (~HasSupply(s, so.bk) \/ SupplyOf(s, so.bk).t < o.qty))
      \/ ~RateUsable(s.feeparams.seller)
-     \/ c.sellerNeg                                  \* sdk.NewCoin panics on a negative amount
+     \/ c.sellerT < 0                                \* sdk.NewCoin panics on a negative amount
   THEN Fail(s) ELSE
   LET s1 == [s EXCEPT !.orders = IF so.qty = o.qty THEN @ \ {so}
                                  ELSE (@ \ {so}) \cup {[so EXCEPT !.qty = @ - o.qty]}]
@@ -203,8 +206,13 @@ H_RemoveAllowedDenom(s, m) ==
   IF m.authority # Gov \/ ~DenomAllowed(s, m.denom) THEN Fail(s)
   ELSE Ok([s EXCEPT !.denoms = {x \in @ : x.bank # m.denom}])
 
+\* FeeParams.Validate: both rates non-negative decimals, the seller rate at most 1
+RatesValid(b, sl) ==
+  /\ b.kind \in {"empty", "zero", "pos"} /\ sl.kind \in {"empty", "zero", "pos"}
+  /\ (sl.kind = "pos" => sl.num <= sl.den)
+
 H_GovSetFeeParams(s, m) ==
-  IF m.authority # Gov THEN Fail(s)
+  IF m.authority # Gov \/ ~RatesValid(m.buyer, m.seller) THEN Fail(s)
   ELSE Ok([s EXCEPT !.feeparams = [buyer |-> m.buyer, seller |-> m.seller]])
 
 H_GovSendFromFeePool(s, m) ==
